@@ -35,11 +35,11 @@ def MC_RUNS(quick):
     runs = [("MCFrbTwist", "MCFrbTwist", "tiny BN world (x = -1: p = 19, r = 13, every b with #E(F_p) = 13, every xi = c + u that is "
                                          "neither a square nor a cube): on ALL 324 finite points of the twist of order 13 * 25 the "
                                          "endomorphism equation g2_is_valid evaluates ([x+1]Q + psi([x]Q) + psi^2([x]Q) = psi^3([2x]Q)) "
-                                         "holds exactly for the 12 non-identity points annihilated by r; psi = [p] on them", False, HEAP),
-            ("MCCurveX", "MCCurveX", "the definitions the verdicts are computed with: lib/CurveX is a group law on every nonsingular "
-                                     "curve over F_9; XMulB / PMulB / TPowB (balanced recursion) = XMulNat / PMulNat / TExp", False, HEAP)]
+                                         "holds exactly for the 12 non-identity points annihilated by r; psi = [p] on them", False, HEAP)]
     if not quick:
-        runs += [("MCFrbTwist", "MCFrbTwist_b12", "tiny BLS12 world (x = -2: p = 37, r = 13, F_p2 = F_37[u]/(u^2-2)): on ALL 1416 finite "
+        runs += [("MCCurveX", "MCCurveX", "the definitions the verdicts are computed with: lib/CurveX is a group law on every nonsingular "
+                                     "curve over F_9; XMulB / PMulB / TPowB (balanced recursion) = XMulNat / PMulNat / TExp", False, HEAP),
+                 ("MCFrbTwist", "MCFrbTwist_b12", "tiny BLS12 world (x = -2: p = 37, r = 13, F_p2 = F_37[u]/(u^2-2)): on ALL 1416 finite "
                                                   "points of the twist of order 13 * 109, psi(Q) = [x]Q exactly for the points "
                                                   "annihilated by r", False, HEAP)]
     return runs
